@@ -76,6 +76,45 @@ class AbsToken:
         return self.normalized in values
 
 
+class MiniFunc:
+    """a def/lambda of the analysed source closed over the environment it was created in"""
+
+    def __init__(self, ev, node, env, name='<lambda>'):
+        self.ev, self.node, self.env, self.name = ev, node, env, name
+
+    def __call__(self, *args, **kw):
+        a = self.node.args
+        params = [x.arg for x in a.posonlyargs + a.args]
+        if len(args) > len(params) and not a.vararg:
+            raise Crash(f'{self.name}() takes {len(params)} positional arguments but {len(args)} were given')
+        env = dict(self.env)
+        for p_, v in zip(params, args):
+            env[p_] = v
+        for k, v in kw.items():
+            if k not in params and k not in [x.arg for x in a.kwonlyargs]:
+                raise Crash(f'{self.name}() got an unexpected keyword argument {k!r}')
+            env[k] = v
+        defaults = dict(zip(params[len(params) - len(a.defaults):], a.defaults))
+        for x, d in zip(a.kwonlyargs, a.kw_defaults):
+            if d is not None:
+                defaults[x.arg] = d
+        for p_ in params + [x.arg for x in a.kwonlyargs]:
+            if p_ not in env or (p_ not in dict(zip(params, args)) and p_ not in kw and p_ in defaults):
+                if p_ in defaults:
+                    env[p_] = self.ev.ev(defaults[p_], self.env)
+                elif p_ not in dict(zip(params, args)) and p_ not in kw:
+                    raise Crash(f'{self.name}() missing argument {p_!r}')
+        if a.vararg:
+            env[a.vararg.arg] = tuple(args[len(params):])
+        self.ev._depth = getattr(self.ev, '_depth', 0) + 1
+        try:
+            if self.ev._depth > 60:
+                raise Unsupported('evaluation too deep')
+            return run_function(self.ev, self.node, env)
+        finally:
+            self.ev._depth -= 1
+
+
 class Obj:
     """a record with attributes (splitter state)"""
 
@@ -99,9 +138,26 @@ class Evaluator:
                 return env[n.id]
             if n.id in ('True', 'False', 'None'):
                 return {'True': True, 'False': False, 'None': None}[n.id]
+            if n.id in ('list', 'tuple', 'int', 'str', 'dict', 'bool', 'set'):
+                return {'list': list, 'tuple': tuple, 'int': int, 'str': str, 'dict': dict, 'bool': bool, 'set': set}[n.id]
             try:
                 return self.folder.eval(n, self.mod, None, self.cls)
             except NotConst:
+                # a module-level function of the analysed source
+                fn_ = getattr(self.mod, 'funcs', {}).get(n.id)
+                if fn_ is not None:
+                    sub = Evaluator(self.ctx, fn_.mod, None)
+                    for k in ('effects', 'on_yield'):
+                        if hasattr(self, k):
+                            setattr(sub, k, getattr(self, k))
+                    return MiniFunc(sub, fn_.node, {}, fn_.short)
+                imp = self.mod.imports.get(n.id)
+                if imp and imp[0] == 'object':
+                    fq = f'{imp[1]}.{imp[2]}'
+                    fn_ = self.ctx.repo.funcs.get(fq)
+                    if fn_ is not None:
+                        sub = Evaluator(self.ctx, fn_.mod, None)
+                        return MiniFunc(sub, fn_.node, {}, fn_.short)
                 raise Unsupported(f'name {n.id}')
         if isinstance(n, ast.Attribute):
             # constants first (T.Keyword, sql.Where.M_CLOSE)
@@ -109,6 +165,11 @@ class Evaluator:
             while isinstance(root, ast.Attribute):
                 root = root.value
             if isinstance(root, ast.Name) and root.id not in env:
+                if self.mod.imports.get(root.id) == ('module', 're') and isinstance(n.value, ast.Name):
+                    import re as _re
+                    v_ = getattr(_re, n.attr, None)
+                    if isinstance(v_, int):
+                        return int(v_)
                 try:
                     return self.folder.eval(n, self.mod, None, self.cls)
                 except NotConst:
@@ -125,6 +186,10 @@ class Evaluator:
                         return self.folder.eval(node, owner.mod, None, owner)
                     except NotConst:
                         raise Unsupported(f'class attribute {n.attr}')
+            if isinstance(base, AbsToken) and not hasattr(base, n.attr):
+                m_ = self._method_of(base, n.attr)
+                if m_ is not None:
+                    return m_
             if isinstance(base, (AbsToken, Obj)):
                 if not hasattr(base, n.attr):
                     raise Unsupported(f'attribute {n.attr} of abstract object')
@@ -178,7 +243,15 @@ class Evaluator:
         if isinstance(n, ast.Subscript):
             b = self.ev(n.value, env)
             if isinstance(n.slice, ast.Slice):
-                raise Unsupported('slice')
+                if not isinstance(b, (list, tuple, str)):
+                    raise Unsupported('slice of abstract value')
+                lo = self.ev(n.slice.lower, env) if n.slice.lower is not None else None
+                hi = self.ev(n.slice.upper, env) if n.slice.upper is not None else None
+                st = self.ev(n.slice.step, env) if n.slice.step is not None else None
+                try:
+                    return b[lo:hi:st]
+                except TypeError as e:
+                    raise Crash(f'{e} in `{src(n)}`')
             i = self.ev(n.slice, env)
             try:
                 return b[i]
@@ -186,14 +259,22 @@ class Evaluator:
                 raise Crash(f'{type(e).__name__} in `{src(n)}`')
         if isinstance(n, ast.Call):
             return self.call(n, env)
+        if isinstance(n, ast.Lambda):
+            return MiniFunc(self, n, env)
         if isinstance(n, ast.GeneratorExp) or isinstance(n, ast.ListComp):
-            if len(n.generators) == 1 and not n.generators[0].ifs and isinstance(n.generators[0].target, ast.Name):
-                it = self.ev(n.generators[0].iter, env)
+            if len(n.generators) == 1 and isinstance(n.generators[0].target, (ast.Name, ast.Tuple)):
+                g = n.generators[0]
+                it = self.ev(g.iter, env)
                 out = []
                 for x in it:
                     e2 = dict(env)
-                    e2[n.generators[0].target.id] = x
-                    out.append(self.ev(n.elt, e2))
+                    if isinstance(g.target, ast.Name):
+                        e2[g.target.id] = x
+                    else:
+                        for t_, v_ in zip(g.target.elts, x):
+                            e2[t_.id] = v_
+                    if all(self.truth(self.ev(c, e2)) for c in g.ifs):
+                        out.append(self.ev(n.elt, e2))
                 return out
         raise Unsupported(type(n).__name__)
 
@@ -251,8 +332,89 @@ class Evaluator:
                 return l >= r
         raise Unsupported('comparison')
 
+    def _method_of(self, tok, name):
+        """bound method of the analysed source for an abstract token: resolved through the MRO of its group class (leaves: sql.Token)"""
+        repo = self.ctx.repo
+        c = tok.cls if tok.cls is not None else repo.classes.get('sqlparse.sql.Token')
+        m = repo.lookup_method(c, name) if c is not None else None
+        if m is None:
+            return None
+        sub = Evaluator(self.ctx, m.mod, m.cls)
+        for k in ('effects', 'on_yield'):
+            if hasattr(self, k):
+                setattr(sub, k, getattr(self, k))
+        sub._depth = getattr(self, '_depth', 0)
+        fn = MiniFunc(sub, m.node, {}, m.short)
+        if any(isinstance(d, ast.Name) and d.id == 'staticmethod' for d in m.node.decorator_list):
+            return fn
+        if any(isinstance(d, ast.Name) and d.id == 'property' for d in m.node.decorator_list):
+            return fn(tok)
+        return lambda *a, **k: fn(tok, *a, **k)
+
+    def _args(self, n, env):
+        args = []
+        for a in n.args:
+            if isinstance(a, ast.Starred):
+                args += list(self.ev(a.value, env))
+            else:
+                args.append(self.ev(a, env))
+        kw = {}
+        for k in n.keywords:
+            if k.arg is None:
+                kw.update(self.ev(k.value, env))
+            else:
+                kw[k.arg] = self.ev(k.value, env)
+        return args, kw
+
     def call(self, n, env):
         f = n.func
+        # closures, lambdas and bound methods held in variables / attributes
+        if isinstance(f, ast.Name) and f.id in env and (isinstance(env[f.id], MiniFunc) or callable(env[f.id])) and not isinstance(env[f.id], type):
+            args, kw = self._args(n, env)
+            return env[f.id](*args, **kw)
+        if isinstance(f, ast.Attribute):
+            try:
+                base0 = self.ev(f.value, env) if not (isinstance(f.value, ast.Name) and f.value.id not in env) else None
+            except (Unsupported, Unknown):
+                base0 = None
+            if isinstance(base0, AbsToken) and f.attr != 'match' and not hasattr(base0, f.attr):
+                m_ = self._method_of(base0, f.attr)
+                if m_ is not None:
+                    args, kw = self._args(n, env)
+                    return m_(*args, **kw)
+            if isinstance(base0, list) and f.attr in ('index', 'count', 'append', 'insert', 'pop', 'remove', 'extend') and (
+                    f.attr in ('index', 'count') or getattr(self, 'effects', False)):
+                args, kw = self._args(n, env)
+                try:
+                    return getattr(base0, f.attr)(*args)
+                except (ValueError, IndexError) as e:
+                    raise Crash(f'{type(e).__name__} in `{src(n)}`')
+        if isinstance(f, ast.Attribute) and isinstance(f.value, ast.Name) and f.value.id not in env \
+                and self.mod.imports.get(f.value.id) == ('module', 're') and f.attr == 'compile':
+            args, kw = self._args(n, env)
+            flags = args[1] if len(args) > 1 else kw.get('flags', 0)
+            if not isinstance(args[0], str) or not isinstance(flags, int):
+                raise Unsupported('re.compile operands')
+            return Rx(args[0], flags)
+        if isinstance(f, ast.Name) and f.id not in env and f.id in ('range', 'reversed', 'sorted', 'sum', 'abs', 'zip', 'iter', 'next'):
+            args, kw = self._args(n, env)
+            try:
+                if f.id == 'range':
+                    return list(range(*args))
+                if f.id == 'reversed':
+                    return list(reversed(args[0]))
+                if f.id == 'zip':
+                    return list(zip(*args))
+                if f.id == 'iter':
+                    return iter(args[0])
+                if f.id == 'next':
+                    try:
+                        return next(*args)
+                    except StopIteration:
+                        raise Crash(f'StopIteration in `{src(n)}`')
+                return {'sorted': sorted, 'sum': sum, 'abs': abs}[f.id](*args)
+            except TypeError as e:
+                raise Crash(f'{e} in `{src(n)}`')
         if isinstance(f, ast.Name) and f.id not in env:
             args = [self.ev(a, env) for a in n.args]
             if f.id == 'isinstance':
@@ -264,6 +426,10 @@ class Evaluator:
                     return False
                 if isinstance(obj, str):
                     return any(getattr(x, '__name__', None) == 'str' for x in cs)
+                if all(isinstance(x, type) for x in cs):
+                    return isinstance(obj, tuple(cs))
+                if isinstance(obj, (int, list, tuple, dict)) and all(isinstance(x, (type, ClsRef)) for x in cs):
+                    return isinstance(obj, tuple(x for x in cs if isinstance(x, type)))
                 raise Unsupported('isinstance operand')
             if f.id == 'enumerate' and len(args) in (1, 2):
                 return list(enumerate(*args))
@@ -379,6 +545,9 @@ def run_function(ev, fnode, env, max_steps=200):
     class _Continue(Exception):
         pass
 
+    class _Break(Exception):
+        pass
+
     def block(stmts, env):
         for s in stmts:
             if isinstance(s, ast.Return):
@@ -405,13 +574,18 @@ def run_function(ev, fnode, env, max_steps=200):
                 assign(s.target, nv, env)
             elif isinstance(s, ast.For) and isinstance(s.target, (ast.Name, ast.Tuple)):
                 it = ev.ev(s.iter, env)
+                broke = False
                 for x in it:
                     assign(s.target, x, env)
                     try:
                         block(s.body, env)
                     except _Continue:
                         pass
-                block(s.orelse, env)
+                    except _Break:
+                        broke = True
+                        break
+                if not broke:
+                    block(s.orelse, env)
             elif isinstance(s, ast.Expr) and isinstance(s.value, ast.Constant):
                 pass
             elif isinstance(s, ast.Expr) and isinstance(s.value, ast.Yield) and getattr(ev, 'on_yield', None) is not None:
@@ -442,7 +616,31 @@ def run_function(ev, fnode, env, max_steps=200):
             elif isinstance(s, ast.Pass):
                 pass
             elif isinstance(s, (ast.FunctionDef,)):
-                pass
+                env[s.name] = MiniFunc(ev, s, env, s.name)
+            elif isinstance(s, ast.While):
+                n_it = 0
+                broke = False
+                while ev.truth(ev.ev(s.test, env)):
+                    n_it += 1
+                    if n_it > max_steps:
+                        raise Unsupported('loop does not terminate within the step bound')
+                    try:
+                        block(s.body, env)
+                    except _Continue:
+                        continue
+                    except _Break:
+                        broke = True
+                        break
+                if not broke:
+                    block(s.orelse, env)
+            elif isinstance(s, ast.Break):
+                raise _Break()
+            elif isinstance(s, ast.Assert):
+                if not ev.truth(ev.ev(s.test, env)):
+                    raise Crash(f'AssertionError `{src(s.test)}`')
+            elif isinstance(s, ast.Expr) and isinstance(s.value, ast.Call):
+                # a call for its value only (no effects requested): evaluate, ignore
+                ev.ev(s.value, env)
             else:
                 raise Unsupported(f'statement {type(s).__name__}: {src(s)[:40]}')
 
